@@ -2458,8 +2458,17 @@ func ConcScenarios(ver int) []Scenario {
 
 // RunConc is the body of the concurrent parts: every scenario, every schedule with at most `bound` preemptions.
 func RunConc(ad ConcAdapter, part string, quickBudget, thoroughBudget time.Duration) {
-	r := vr.Start("C12", part, quickBudget, thoroughBudget)
+	// The same schedule exploration also decides the mempool clause of C05 ("from the moment a commit is requested
+	// until the mempool has been updated and rechecked for that block, no check of a new transaction is started or in
+	// flight on the mempool connection"): with VERIF_C12_AS_C05 set the part reports under property C05, the clause's
+	// keys are the violations and the C12 verdicts are left to the C12 check.
+	pid, asC05 := "C12", os.Getenv("VERIF_C12_AS_C05") != ""
+	if asC05 {
+		pid = "C05"
+	}
+	r := vr.Start(pid, part, quickBudget, thoroughBudget)
 	defer r.Finish()
+	c05Key := func(d string) string { return fmt.Sprintf("mempool/v%d:%s", ad.Ver(), d) }
 	r.Rule = "every schedule (sequence of thread choices at the scheduling points: operations of the mempool's own lock and every call of the application connection) with at most the stated number of preemptions, per scenario; non-trivial = schedules with at least one preemption"
 	r.Assume("scheduling points are the mempool's own RWMutex operations and the calls into the application connection; code between two points runs atomically (list, index and cache operations are internally locked or run under the mempool lock)")
 	r.Assume("the application accepts every transaction except, after it has committed the block, the block's own transactions (replay protection); its verdict is fixed when the request reaches it; responses are handled in request order by one receive goroutine (socket mode) or in the caller (local mode)")
@@ -2476,6 +2485,14 @@ func RunConc(ad ConcAdapter, part string, quickBudget, thoroughBudget time.Durat
 		r.Eval()
 		r.Traces++
 		v, d, res, cr := judgeCase(rc)
+		if asC05 {
+			for _, x := range d {
+				if strings.HasPrefix(x, "C05-clause") && !strings.Contains(x, "answered-but-not-applied") {
+					r.Violation(c05Key(x), fmt.Sprintf("[%s/%s] schedule: %s ; journal: %s", rc.Scn.Name, rc.Scn.Mode, res, strings.Join(cr.journal, " ; ")), rc)
+				}
+			}
+			return
+		}
 		if v != nil {
 			r.Violation(v.Key, fmt.Sprintf("[%s/%s] %s ; schedule: %s ; journal: %s", rc.Scn.Name, rc.Scn.Mode, v.What, res, strings.Join(cr.journal, " ; ")), rc)
 		}
@@ -2529,13 +2546,17 @@ func RunConc(ad ConcAdapter, part string, quickBudget, thoroughBudget time.Durat
 					r.Add("diag_"+scn.Mode+"_"+key, 1)
 					if strings.HasPrefix(d, "C05-clause") {
 						out += " " + d
+						// "answered but not applied" is outside the statement (the check is no longer in flight on the connection): diagnostic only
+						if asC05 && !strings.Contains(d, "answered-but-not-applied") {
+							r.Violation(c05Key(d), fmt.Sprintf("[%s/%s] schedule: %s ; journal: %s", scn.Name, scn.Mode, res, strings.Join(cr.journal, " ; ")), cs)
+						}
 					}
 					if n, _ := noted[key]; n < 2 {
 						noted[key] = n + 1
 						r.Note(fmt.Sprintf("diag: [%s/%s v%d] %s ; schedule: %s ; journal: %s", scn.Name, scn.Mode, ad.Ver(), d, res, strings.Join(cr.journal, " ; ")))
 					}
 				}
-				if v != nil {
+				if v != nil && !asC05 {
 					stable := vr.Confirm(3, v, func() error {
 						v2, _, _, _ := judgeCase(cs)
 						if v2 == nil {
